@@ -2459,6 +2459,38 @@ bool DTDScanner::scanEq()
 //
 void DTDScanner::scanExtSubsetDecl(const bool inIncludeSect, const bool isDTD)
 {
+    if (!isDTD)
+    {
+        scanExtSubsetDeclImpl(inIncludeSect, isDTD);
+        return;
+    }
+
+    //
+    //  This is the top level scan of the external subset. If an exception
+    //  comes out of it, pop the reader stack back to the level we started
+    //  at before propagating it: the readers pushed for parameter entities
+    //  refer to entity declarations that this scanner owns, and our caller
+    //  destroys this scanner while it still uses the reader manager to
+    //  report the error.
+    //
+    const XMLSize_t readerNum = fReaderMgr->getCurrentReaderNum();
+    try
+    {
+        scanExtSubsetDeclImpl(inIncludeSect, isDTD);
+    }
+    catch(const OutOfMemoryException&)
+    {
+        throw;
+    }
+    catch(...)
+    {
+        fReaderMgr->cleanStackBackTo(readerNum);
+        throw;
+    }
+}
+
+void DTDScanner::scanExtSubsetDeclImpl(const bool inIncludeSect, const bool isDTD)
+{
     // Indicate we are in the external subset now
     FlagJanitor<bool> janContentFlag(&fInternalSubset, false);
 
@@ -2934,6 +2966,37 @@ void DTDScanner::scanIgnoredSection()
 //  right there, via the expandERef() method.
 //
 bool DTDScanner::scanInternalSubset()
+{
+    //
+    //  If an exception comes out of the scan, pop the reader stack back to
+    //  the level we started at before propagating it (see scanExtSubsetDecl).
+    //
+    const XMLSize_t readerNum = fReaderMgr->getCurrentReaderNum();
+    try
+    {
+        const bool ok = scanInternalSubsetImpl();
+
+        //
+        //  If the scan gave up, readers for parameter entities can still be
+        //  on the stack. Our caller just skips forward in that case, so get
+        //  rid of them here for the same reason as above.
+        //
+        if (!ok)
+            fReaderMgr->cleanStackBackTo(readerNum);
+        return ok;
+    }
+    catch(const OutOfMemoryException&)
+    {
+        throw;
+    }
+    catch(...)
+    {
+        fReaderMgr->cleanStackBackTo(readerNum);
+        throw;
+    }
+}
+
+bool DTDScanner::scanInternalSubsetImpl()
 {
     // Indicate we are in the internal subset now
     FlagJanitor<bool> janContentFlag(&fInternalSubset, true);
